@@ -1,6 +1,7 @@
 // ===== packages/haloswap/src/pair.rs : message types =====
 //%item packages/haloswap/src/pair.rs enum ExecuteMsg
 //%item packages/haloswap/src/pair.rs enum Cw20HookMsg
+//%item packages/haloswap/src/pair.rs enum QueryMsg
 //%item packages/haloswap/src/pair.rs struct SimulationResponse
 //%item packages/haloswap/src/pair.rs struct ReverseSimulationResponse
 //%item packages/haloswap/src/pair.rs struct InstantiateMsg
